@@ -25,6 +25,7 @@ pub fn truncations() -> Vec<Op> {
         "\x1b[?1;",
         "\x1b[38:2:",
         "\x1b[5 ",
+        "\x1b[!",
         "\x1b(",
         "\x1bP1$",
         "\x1bPq",
